@@ -105,6 +105,9 @@ func (p *HTTPProxy) ServeHTTPWithUpstream(
 	// hop-by-hop header, which must never include the forward marker
 	// (otherwise the receiving node would forward the request again).
 	removeConnectionOption(r.Header, "x-piko-forward")
+	// Likewise the endpoint header must reach the node the request is
+	// forwarded to, which routes the request by it.
+	removeConnectionOption(r.Header, "x-piko-endpoint")
 
 	r = r.WithContext(context.WithValue(r.Context(), endpointContextKey, endpointID))
 
